@@ -434,8 +434,14 @@ def prog_tokens(s):
 
 
 def sphere_header(nchan, nsamp, au, byte_format="01"):
-    lines = ["NIST_1A", "   1024", "channel_count -i %d" % nchan, "sample_count -i %d" % nsamp,
-             "sample_rate -i 8000"]
+    # header layout as a function of the case: the plain 1024-byte header, or a 2048- / 3072-byte header whose descriptive
+    # fields fill the first block so that the fields the decoder needs (and `end_head`) lie BEYOND the first 1024 bytes
+    size = [1024, 1024, 2048, 3072][(nchan + nsamp) % 4]
+    lines = ["NIST_1A", "%7d" % size]
+    if size > 1024:
+        lines += ["utterance_note_%02d -s40 %s" % (k, "x" * 40) for k in range(16 if size == 2048 else 33)]
+    lines += ["channel_count -i %d" % nchan, "sample_count -i %d" % nsamp, "sample_rate -i 8000"]
+    hdr_size = size
     if au:
         lines += ["sample_n_bytes -i 1", "sample_byte_format -s1 1", "sample_coding -s27 ulaw,embedded-shorten-v2.00"]
     else:
@@ -443,7 +449,8 @@ def sphere_header(nchan, nsamp, au, byte_format="01"):
                   "sample_coding -s26 pcm,embedded-shorten-v2.00"]
     lines += ["end_head"]
     h = ("\n".join(lines) + "\n").encode()
-    return h + b" " * (1024 - len(h))
+    assert 1024 * (hdr_size > 1024) < len(h) <= hdr_size, (len(h), hdr_size)
+    return h + b" " * (hdr_size - len(h))
 
 
 class ImplTimeout(Exception):
@@ -461,7 +468,10 @@ def impl_decode(body, nchan, nsamp, au, dtype, byte_format="01"):
     """-> ("ok", flat list, shape) | ("err", class name)"""
     from pydrobert.speech import util
 
-    f = io.BytesIO(sphere_header(nchan, nsamp, au, byte_format) + body)
+    blob = sphere_header(nchan, nsamp, au, byte_format) + body
+    # how the file reaches the reader: a BytesIO, a forward-only stream (no seek / tell, short reads), or the second record
+    # of a seekable stream
+    f = [io.BytesIO, lambda b: common.PipeStream(b, short=4099), common.offset_stream][nsamp % 3](blob)
     old = signal.signal(signal.SIGVTALRM, _on_vtalarm)
     signal.setitimer(signal.ITIMER_VIRTUAL, IMPL_CPU_LIMIT)
     try:
